@@ -620,6 +620,90 @@ server6:
 				}
 			}
 		}
+		{
+			relayIP, relayMAC, srvIP := relayOf("ve1")
+			// a REQUEST that names 10.77.0.7 as its server: that is another address of ve0, not this server's
+			// identifier (10.77.0.1) - somebody else's request
+			mac := []byte{0x02, 0xcf, byte(w.rng.Intn(256)), byte(w.rng.Intn(256)), 0, 1}
+			for _, where := range []string{"option 54", "siaddr"} {
+				w.xid++
+				p := pkt.Request4(0x90000+w.xid, mac, 3, pkt.O4(55, 1, 3))
+				if where == "option 54" {
+					p.Opts = append(p.Opts, pkt.O4(54, 10, 77, 0, 7))
+				} else {
+					p.Si = [4]byte{10, 77, 0, 7}
+				}
+				p.Gi, p.Hops = relayIP, 1
+				req := p.Bytes()
+				obs := w.exchange("ve1", pkt.BuildFrame4(relayMAC, w.ve0mac, relayIP, srvIP, 67, 67, req), 300*time.Millisecond)
+				ctx.Eval("C14", 1)
+				if w.srvDied(s, name, "a REQUEST naming another address of the interface", req) {
+					return
+				}
+				for i := range obs {
+					if obs[i].f4 != nil {
+						ctx.Viol("C14", "wire:foreign-not-dropped", "%s (server_id 10.77.0.1; ve0 also carries 10.77.0.7): a REQUEST whose %s names 10.77.0.7 was answered", name, where)
+						break
+					}
+				}
+				ctx.Count("wire.default_listen.requests_naming_sibling_address", 1)
+			}
+			// a request "relayed" by an agent that sits on the server host itself: giaddr is one of the server's
+			// own addresses. Whatever is sent anywhere on the wire for it must still mirror the request.
+			for _, own := range [][4]byte{{10, 77, 0, 1}, {10, 78, 0, 1}, {10, 77, 0, 7}} {
+				w.xid++
+				p := pkt.Request4(0x90000+w.xid, mac, 1, pkt.O4(55, 1, 3), pkt.O4(82, 1, 2, 'l', 'o'))
+				p.Gi, p.Hops = own, 1
+				req := p.Bytes()
+				obs := w.exchange("ve1", pkt.BuildFrame4(relayMAC, w.ve0mac, relayIP, srvIP, 67, 67, req), 300*time.Millisecond)
+				w.judgeVariant4(name, req, obs, fmt.Sprintf("DISCOVER with giaddr %v (an address of the server host)", net.IP(own[:])))
+				if w.srvDied(s, name, "a DISCOVER with giaddr = own address", req) {
+					return
+				}
+				ctx.Count("wire.default_listen.giaddr_is_own_address", 1)
+			}
+		}
+		s.stop()
+	}
+
+	// ------------------------------------------------------------------ listening on one specific address
+	{
+		conf := fmt.Sprintf("server4:\n  listen: ['10.77.0.1']\n  plugins:\n    - server_id: 10.77.0.1\n    - range: %s/leases-addr.db 10.77.0.100 10.77.0.180 60s\n    - netmask: 255.255.255.0\n", dir)
+		name := "real binary, listen 10.77.0.1 (an address of ve0, no zone)"
+		w.varServerID = []byte{10, 77, 0, 1}
+		s, state := w.startSrv(dir, "addr", conf, nil, []string{"/proc/net/udp:0043"}, 10*time.Second, nil)
+		if state != "ready" {
+			if s != nil {
+				s.stop()
+			}
+			ctx.Inconclusive("wire/specific-address: the server did not come up (%s)", state)
+			return
+		}
+		// the datagram is addressed to 10.77.0.1 but arrives on the OTHER link (weak host model: the kernel
+		// delivers it); a broadcast reply belongs on the link the request came from
+		for _, link := range []string{"vf1", "ve1"} {
+			mac := []byte{0x02, 0xd2, byte(w.rng.Intn(256)), byte(w.rng.Intn(256)), 0, 1}
+			w.xid++
+			p := pkt.Request4(0xa0000+w.xid, mac, 1, pkt.O4(55, 1))
+			p.Flags = 0x8000
+			req := p.Bytes()
+			src := [4]byte{10, 78, 0, 99}
+			if link == "ve1" {
+				src = [4]byte{10, 77, 0, 99}
+			}
+			obs := w.exchange(link, pkt.BuildFrame4(mac, srvMAC[link], src, [4]byte{10, 77, 0, 1}, 68, 67, req), 500*time.Millisecond)
+			_, o := w.judgeVariant4(name, req, obs, "broadcast-flag DISCOVER addressed to 10.77.0.1 arriving on "+link)
+			if w.srvDied(s, name, "a DISCOVER", req) {
+				return
+			}
+			if o == nil {
+				ctx.Count("wire.specific_address.unanswered_on_"+link, 1)
+			} else if o.link != link {
+				ctx.Viol("C15", "wire:wrong-link", "%s: the broadcast reply to a DISCOVER received on %s left on the link of %s", name, link, o.link)
+			} else {
+				ctx.Count("wire.specific_address.replies_on_arrival_link", 1)
+			}
+		}
 		s.stop()
 	}
 
@@ -681,6 +765,33 @@ server6:
 		}
 		if w.srvDied(s, name, "REQUESTs with IA_PD", nil) {
 			return
+		}
+		// a relay agent on the server host itself talks to the server over the loopback address
+		if lc, err := net.ListenUDP("udp6", &net.UDPAddr{IP: net.IPv6loopback, Port: 0}); err == nil {
+			w.xid++
+			inner := pkt.Msg6(1, w.xid&0xffffff, []pkt.Opt6{pkt.O6(pkt.OptClientID6, pkt.DUIDLL([]byte{2, 0xaa, 0, 0, 9, 9})), pkt.IAPD(1, 0, 0, nil)})
+			rel := pkt.Relay6(12, 0, net.ParseIP("2001:db8:99::1"), net.ParseIP("fe80::99"), []pkt.Opt6{pkt.O6(pkt.OptInterfaceID, []byte("lo-relay"))}, inner)
+			answered := false
+			for try := 0; try < 3 && !answered; try++ {
+				lc.WriteToUDP(rel, &net.UDPAddr{IP: net.IPv6loopback, Port: 547})
+				lc.SetReadDeadline(time.Now().Add(700 * time.Millisecond))
+				buf := make([]byte, 2048)
+				if n, _, err := lc.ReadFromUDP(buf); err == nil && n > 0 {
+					answered = true
+					rq := model.Req6{Data: rel, CodecOK: true, SrcLL: false, Src: lc.LocalAddr().String()}
+					rep := model.Rep6{Payload: buf[:n], Peer: lc.LocalAddr().String()}
+					for _, f := range model.Judge6(rq, []model.Rep6{rep}) {
+						ctx.Viol("C12", "wire:"+f.Sig, "%s, relayed SOLICIT over the loopback address: %s", name, f.Msg)
+					}
+				}
+			}
+			ctx.Eval("C12", 1)
+			if !answered {
+				ctx.Viol("C12", "wire:no-reply", "%s: a relayed SOLICIT sent from [::1] (a relay agent on the server host) got no reply in 3 transmissions", name)
+			} else {
+				ctx.Count("wire.loopback_relay_answered", 1)
+			}
+			lc.Close()
 		}
 		syscall.Kill(s.cmd.Process.Pid, syscall.SIGHUP)
 		time.Sleep(1500 * time.Millisecond)
